@@ -1788,14 +1788,24 @@ fn check_group_case(c: &mut Case, s: &GroupSpec) {
             }
             // the same conversion through the editor session (load root + group, convert_to_version, save_group): what it saves is
             // the group converted and written for the version the session now has
-            if let (Ok(Ok(a)), Ok(mut root)) = (&direct, WmoParser::new().parse_root(&mut Cursor::new(seed_root()))) {
+            // (targets: the five versions of the round-trip legs, and — from the newest of them — the later file versions, whose group
+            // layout differs; there the two library paths are compared with each other only)
+            let mut targets: Vec<(WmoVersion, String)> = vec![(VERS[to].0, pair.clone())];
+            if to == MOP {
+                for (tv, tn) in [(WmoVersion::Wod, "Wod"), (WmoVersion::Legion, "Legion"), (WmoVersion::WarWithin, "WarWithin")] {
+                    targets.push((tv, format!("{}->{tn}", VERS[from].1)));
+                }
+            }
+            for (tver, pair) in targets {
+            let a: Result<Result<Vec<u8>, String>, PanicInfo> = if tver == VERS[to].0 { match &direct { Ok(Ok(x)) => Ok(Ok(x.clone())), _ => Ok(Err("direct conversion not available".into())) } } else { Ok(Ok(Vec::new())) };
+            if let (Ok(Ok(a)), Ok(mut root)) = (&a, WmoParser::new().parse_root(&mut Cursor::new(seed_root()))) {
                 root.version = VERS[from].0;
                 let mut g = build_group(s, valid_group_flags(s.flags, from));
                 g.header.group_index = 0;
                 let saved = lib(|| -> Result<Vec<u8>, wow_wmo::WmoError> {
                     let mut ed = wow_wmo::WmoEditor::new(root);
                     ed.add_group(g)?;
-                    ed.convert_to_version(VERS[to].0)?;
+                    ed.convert_to_version(tver)?;
                     let mut cur = Cursor::new(Vec::new());
                     ed.save_group(&mut cur, 0)?;
                     Ok(cur.into_inner())
@@ -1812,12 +1822,19 @@ fn check_group_case(c: &mut Case, s: &GroupSpec) {
                         // group_index is part of the header: compare with the direct conversion of the same group at index 0
                         let mut g0 = build_group(s, valid_group_flags(s.flags, from));
                         g0.header.group_index = 0;
-                        let want = lib(|| conv.convert_group(&mut g0, VERS[to].0, VERS[from].0)).ok().and_then(|r| r.ok()).and_then(|_| wr(&g0).ok()).and_then(|r| r.ok()).unwrap_or_else(|| a.clone());
+                        let wr_t = |g: &WmoGroup| {
+                            lib(|| {
+                                let mut cur = Cursor::new(Vec::new());
+                                w.write_group(&mut cur, g, tver).map(|_| cur.into_inner())
+                            })
+                        };
+                        let want = lib(|| conv.convert_group(&mut g0, tver, VERS[from].0)).ok().and_then(|r| r.ok()).and_then(|_| wr_t(&g0).ok()).and_then(|r| r.ok()).unwrap_or_else(|| a.clone());
                         if e != want {
-                            c.violate(format!("convert|editor-save-group.bytes|{pair}"), format!("WmoEditor: load, convert_to_version({}), save_group wrote bytes that differ from converting and writing the same group for that version (first difference at byte {})", VERS[to].1, vh_common::first_diff(&e, &want)), json!({}));
+                            c.violate(format!("convert|editor-save-group.bytes|{pair}"), format!("WmoEditor: load, convert_to_version({tver:?}), save_group wrote bytes that differ from converting and writing the same group for that version (first difference at byte {})", vh_common::first_diff(&e, &want)), json!({}));
                         }
                     }
                 }
+            }
             }
         }
     }
